@@ -265,6 +265,8 @@ def object_state_before_refusal(ct, rep, rule="validate-before-effect"):
 
 
 def run(prog, rep):
+    from .. import mutrules as _M
+    rep.attempt(_M.session_boundary, prog, rep)
     ct = Container(prog)
     cd = Codecs(prog)
     cd.flag_errors(rep)
